@@ -688,7 +688,7 @@ struct Shared {
 
 /// Race the thread programs on the real registry `reps` times; collect the distinct outcomes.
 /// Worker threads are detached (not scoped) so that a deadlock inside the registry can be reported.
-fn run_conc(setup: &[EOp], progs: &[Vec<EOp>], reps: u64) -> ConcResult {
+fn run_conc(setup: &[EOp], progs: &[Vec<EOp>], reps: u64, budget: Duration) -> ConcResult {
     let t = progs.len();
     let sh = Arc::new(Shared {
         slot: Mutex::new(None),
@@ -733,7 +733,13 @@ fn run_conc(setup: &[EOp], progs: &[Vec<EOp>], reps: u64) -> ConcResult {
             }
         }));
     }
+    let t_start = Instant::now();
     for rep in 1..=(reps as usize) {
+        // wall-clock budget per spec: on an oversubscribed machine the spin barriers get slow; fewer
+        // races are run then, never a different verdict
+        if rep > 20 && t_start.elapsed() > budget {
+            break;
+        }
         let mut real = Real::new();
         for (i, op) in setup.iter().enumerate() {
             if let EOp::Ins(p) = op {
@@ -811,6 +817,7 @@ impl Sess {
 
 struct Cfg {
     conc_reps: u64,
+    conc_budget: Duration,
     threads: usize,
 }
 
@@ -1037,7 +1044,7 @@ fn exec(out: &mut Out, se: &mut Sess, cfg: &Cfg, line: &str) -> (String, String,
                     return bad(line);
                 }
             }
-            let res = run_conc(&setup, &progs, cfg.conc_reps);
+            let res = run_conc(&setup, &progs, cfg.conc_reps, cfg.conc_budget);
             let spec_line: Vec<&str> = w.iter().take_while(|x| **x != "::").cloned().collect();
             let head = spec_line.join(" ");
             if res.stuck {
@@ -1347,7 +1354,11 @@ fn main() {
     let mut rng = Rng::new(args.seed);
     let thorough = args.thorough();
     let replay = args.replay_ops();
-    let cfg = Cfg { conc_reps: if replay.is_some() { 20000 } else if thorough { 3000 } else { 400 }, threads: 4 };
+    let cfg = Cfg {
+        conc_reps: if replay.is_some() { 20000 } else if thorough { 2500 } else { 400 },
+        conc_budget: Duration::from_millis(if replay.is_some() { 30000 } else if thorough { 250 } else { 60 }),
+        threads: 4,
+    };
     out.config(&format!("mode {}", debug_mode()));
     out.extra.insert("build_profile".into(), serde_json::json!(debug_mode()));
     out.rule = "enum: every sequence of insert/remove/alias over 3 peers x 3 keys up to the tier's length (inserting a present id pruned: documented contract), each replayed on a fresh real PeerRegistry, observation = return value of the last call + every query (get, key_for, aliases_for, get_by, len); state cover: the same from every reachable abstract state; random: long histories over u64-boundary ids and odd keys with capturing sinks (ok/Disconnected/Full/Other/re-entrant) and the four broadcast_notify_* helpers; conc: 2-4 threads racing coded programs on one registry, outcome must be among the outcomes of the sequential orders. Distinct by op line; non-trivial = some key is assigned / a mutation or a hit / more than one sequential outcome".into();
